@@ -587,6 +587,7 @@ func grpcCodes(res *vkit.Result) {
 	path := vkit.WriteMem([]byte(b.String()))
 	defer vkit.RemoveMem(path)
 	// plain gun
+	tgt.ResetCalls()
 	samples, rr, err := runPool(pool(map[string]any{"type": "grpc/json", "file": path, "passes": 1},
 		map[string]any{"type": "grpc", "target": tgt.Addr, "timeout": "3s"}, 2), 60*time.Second)
 	c := map[string]any{"gun": "grpc"}
@@ -607,6 +608,20 @@ func grpcCodes(res *vkit.Result) {
 			res.Violate("C10/grpc-status/proto", fmt.Sprintf("gRPC status %d (%s) reported as %d, documented mapping says %d", n, codes.Code(n), s.Proto, want), c)
 		}
 		res.Count("grpc_status_samples", 1)
+	}
+	// one sample per fired request: whatever status the target answers with, it must have
+	// received that call exactly once (a call re-sent behind the gun's back would be a request
+	// without a sample)
+	hits := map[string]int{}
+	for _, call := range tgt.Calls() {
+		if r, ok := call.Req.(*server.HelloRequest); ok {
+			hits[r.Name]++
+		}
+	}
+	for _, n := range all {
+		if h := hits[fmt.Sprintf("code-%d", n)]; h != 1 {
+			res.Violate("C10/grpc-status/requests-per-sample", fmt.Sprintf("the call answered with gRPC status %d (%s) was fired once and gave one sample, the target received it %d times", n, codes.Code(n), h), c)
+		}
 	}
 	res.Eval("grpc-codes", true)
 	res.Sample(map[string]any{"check": "every gRPC status 0…16, 17, 99", "samples": len(samples)})
@@ -655,6 +670,34 @@ scenarios:
 	}
 	res.Eval("grpc-scenario", true)
 	res.Count("grpc_scenario_samples", int64(len(samples)))
+
+	// scenario gun, one call answered with Unavailable / ResourceExhausted / Aborted: requests at the target = samples
+	for _, code := range []int{14, 8, 10, 4} {
+		y := fmt.Sprintf(`calls:
+  - name: "c"
+    tag: "t"
+    call: "target.TargetService.Hello"
+    payload: '{"name": "code-%d"}'
+scenarios:
+  - name: "scn"
+    weight: 1
+    min_waiting_time: 0
+    requests: ["c"]
+`, code)
+		_ = vkit.WriteMemAt(sp, []byte(y))
+		tgt.ResetCalls()
+		samples, rr, err = runPool(pool(map[string]any{"type": "grpc/scenario", "file": sp, "limit": 4},
+			map[string]any{"type": "grpc/scenario", "target": tgt.Addr}, 2), 60*time.Second)
+		c = map[string]any{"gun": "grpc/scenario", "status": code}
+		if err != nil || rr.Err != nil || rr.Hang {
+			res.Violate("C10/grpc-scenario/run", fmt.Sprintf("pool failed: %v %v", err, rr.Err), c)
+			return
+		}
+		if got := len(tgt.Calls()); len(samples) != 4 || got != 4 {
+			res.Violate("C10/grpc-scenario/requests-per-sample", fmt.Sprintf("4 shots of one call answered with gRPC status %d: %d samples, the target received %d calls", code, len(samples), got), c)
+		}
+		res.Count("grpc_scenario_samples", int64(len(samples)))
+	}
 }
 
 // ---------- (5) HTTP scenario ----------
